@@ -66,6 +66,7 @@ MANIFEST = {
             "(rpki-rs) over the real repository judged by the same predicates.",
     "note": "Kernel-checked theorems are about the model. Partial: the full-hierarchy / key-roll composition (quiescent_valid) is "
             "proved for one CA level only and checked dynamically beyond. Recorded findings F-C01-1 (overclaiming ROA after key-roll "
-            "activation) and the relying-party consequence of F-C03-1.",
+            "activation, open), F-C01-2 (certificate without resources, open); the relying-party consequences of F-C03-1 and "
+            "F-C02-1 are fixed in /repo (43d7eca0, bb96d233).",
     "technique": "Lean 4 proof (invariants, iff-characterisations) + correspondence check (system stream) + relying-party oracle",
 }
